@@ -249,13 +249,13 @@ def scenarios(tier):
     hexp = lambda tgt, maxc, nrec: {"kind": "apphttp", "scan": "elastic", "target": tgt, "maxConns": maxc, "nrecords": nrec, "hosts": False}
     proxy = ["HTTP_PROXY=http://10.200.0.99:3128", "http_proxy=http://10.200.0.99:3128", "HTTPS_PROXY=http://10.200.0.99:3128", "https_proxy=http://10.200.0.99:3128", "NO_PROXY=", "no_proxy="]
     sc.append({"name": "elastic-proxy-env", "args": ["elastic", "--json", "-p", "9200", "10.200.0.4/31"], "servers": {"9200": "json", "3128": "json"}, "env": proxy,
-               "expect": hexp(target([10, 200, 0, 4], 31, [rng(9200, 9200)]), 2, 2)})
+               "expect": hexp(target([10, 200, 0, 4], 31, [rng(9200, 9200)]), 3, 2)})
     sc.append({"name": "docker-proxy-env", "args": ["docker", "--json", "--proto", "http", "-p", "2375", "10.200.0.6"], "servers": {"2375": "json", "3128": "json"}, "env": proxy,
-               "expect": hexp(target([10, 200, 0, 6], 32, [rng(2375, 2375)]), 3, 1)})
+               "expect": hexp(target([10, 200, 0, 6], 32, [rng(2375, 2375)]), 5, 1)})
     sc.append({"name": "elastic-redirect", "args": ["elastic", "--json", "-p", "9200", "10.200.0.4"], "servers": {"9200": "redirect:http://10.200.0.77:9201/", "9201": "json"},
-               "expect": hexp(target([10, 200, 0, 4], 32, [rng(9200, 9200)]), 2, 0)})
+               "expect": hexp(target([10, 200, 0, 4], 32, [rng(9200, 9200)]), 3, 0)})
     sc.append({"name": "docker-redirect", "args": ["docker", "--json", "--proto", "http", "-p", "2375", "10.200.0.6"], "servers": {"2375": "redirect:http://10.200.0.77:2376/info", "2376": "json"},
-               "expect": hexp(target([10, 200, 0, 6], 32, [rng(2375, 2375)]), 3, 0)})
+               "expect": hexp(target([10, 200, 0, 6], 32, [rng(2375, 2375)]), 5, 0)})
     # 9k. Ctrl-C while application probes are in flight against servers that accepted and do not answer
     for cmd, port in ((["elastic"], "9200"), (["docker", "--proto", "http"], "2375"), (["socks"], "1080")):
         sc.append({"name": "sigint-inflight-" + cmd[0], "args": cmd + ["--json", "-p", port, "-t", "9s", "10.200.0.8/30"], "servers": {port: "stall"}, "sigintConnMs": 300, "maxMs": 14000,
@@ -270,9 +270,9 @@ def scenarios(tier):
                "expect": {"kind": "apptime", "scan": "docker", "target": target([10, 200, 0, 8], 30, [rng(2375, 2375)]), "boundUs": 1700000, "nrecords": 0}})
     # 9m. many docker / elastic probes in parallel against distinct servers: every target is contacted, every record names its own target
     sc.append({"name": "docker-parallel", "args": ["docker", "--json", "--proto", "http", "-p", "2375", "-w", "16", "10.200.0.64/26"], "servers": {"2375": "json"},
-               "expect": dict(hexp(target([10, 200, 0, 64], 26, [rng(2375, 2375)]), 3, 64), scan="docker", hosts=True)})
+               "expect": dict(hexp(target([10, 200, 0, 64], 26, [rng(2375, 2375)]), 5, 64), scan="docker", hosts=True)})
     sc.append({"name": "elastic-parallel", "args": ["elastic", "--json", "-p", "9200", "-w", "16", "10.200.0.64/26"], "servers": {"9200": "json"},
-               "expect": dict(hexp(target([10, 200, 0, 64], 26, [rng(9200, 9200)]), 2, 64), hosts=True)})
+               "expect": dict(hexp(target([10, 200, 0, 64], 26, [rng(9200, 9200)]), 3, 64), hosts=True)})
     # 9n. a quiet wire for longer than any poll timeout: no frame matches the filter during a long exit delay; nothing is reported as an error
     sc.append({"name": "quiet-wire", "args": ["icmp", "--json"] + COMMON + ["--exit-delay", "2600ms", "10.9.3.0/31"], "files": {"empty": ""},
                "expect": dict(packet_expect("icmp", target(net30, 31), [[]], [2], 2600), nerr=0)})
@@ -303,7 +303,7 @@ def scenarios(tier):
                "expect": dict(packet_expect("arp", target(net30, 30), [[]], [4], 400, srcip=[10, 9, 0, 1], dstmac=[255] * 6), kind="packetbusy")})
     # 9t. a slow reader on standard output and a record far larger than a pipe buffer: the last line is complete when the process exits
     sc.append({"name": "elastic-slow-stdout", "args": ["elastic", "--json", "-p", "9200-9201", "--exit-delay", "50ms", "10.200.0.4"], "servers": {"9200": "json", "9201": "bigjson"}, "slowStdout": True, "maxMs": 20000,
-               "expect": dict(hexp(target([10, 200, 0, 4], 32, [rng(9200, 9201)]), 2, 2), hosts=True)})
+               "expect": dict(hexp(target([10, 200, 0, 4], 32, [rng(9200, 9201)]), 3, 2), hosts=True)})
     # 9u. a reply late in a long exit delay
     sc.append({"name": "late-reply-long-delay", "args": ["tcp", "syn", "--json", "-p", "80"] + COMMON + ["--exit-delay", "3s", "10.9.3.1"], "files": {"empty": ""}, "maxMs": 12000,
                "inject": [{"bytes": tcp_reply(a(1), 80, 0x12), "afterProbe": 1, "delayMs": 2500}],
@@ -328,9 +328,9 @@ def scenarios(tier):
                "expect": packet_expect("arp", target(net30, 28, exclude=[{"ip": [10, 9, 3, 4], "len": 30}, {"ip": [10, 9, 3, 9], "len": 32}]), [[]], [11], 300, srcip=[10, 9, 0, 1], dstmac=[255] * 6)})
     # 9y. more answering endpoints than the process may hold descriptors: every probe gives its connections back
     sc.append({"name": "docker-fd-limit", "args": ["docker", "--json", "--proto", "http", "-p", "2375", "-w", "8", "10.200.0.0/25"], "servers": {"2375": "jsonka"}, "ulimitN": 64, "maxMs": 30000,
-               "expect": dict(hexp(target([10, 200, 0, 0], 25, [rng(2375, 2375)]), 3, 128), scan="docker", hosts=True)})
+               "expect": dict(hexp(target([10, 200, 0, 0], 25, [rng(2375, 2375)]), 5, 128), scan="docker", hosts=True)})
     sc.append({"name": "elastic-fd-limit", "args": ["elastic", "--json", "-p", "9200", "-w", "8", "10.200.0.0/25"], "servers": {"9200": "jsonka"}, "ulimitN": 64, "maxMs": 30000,
-               "expect": dict(hexp(target([10, 200, 0, 0], 25, [rng(9200, 9200)]), 2, 128), hosts=True)})
+               "expect": dict(hexp(target([10, 200, 0, 0], 25, [rng(9200, 9200)]), 3, 128), hosts=True)})
     # 10. targets that are not IPv4 are refused before anything is sent
     for i, t in enumerate(["::1", "::ffff:10.9.3.1/126", "fe80::1/64", "10.9.3.1/33", "10.9.3"]):
         sc.append({"name": "refuse-%d" % i, "args": ["tcp", "syn", "--json", "-p", "80"] + COMMON + ["--exit-delay", "300ms", t], "files": {"empty": ""}, "maxMs": 6000,
